@@ -7,7 +7,7 @@
   tuple-unpack index, the UNIX path expression or the inode-merge statement changes.
   The host's endianness is *not* part of `Cfg.Good`: every theorem below holds for both.
 -/
-import PsutilModel.Proofs.C11Retrieve
+import PsutilModel.Proofs.C11Rows
 import PsutilModel.Model.C11Gen
 set_option linter.unusedSimpArgs false
 namespace Psutil.C11
@@ -286,5 +286,148 @@ theorem C11_shared_socket_counterexample : ¬ OwnerFull cfgOldMerge := by
   simp only [renderWorld, worldL12, List.map, Option.map, renderTarget, e7] at this
   revert this
   decide
+
+/-! ## Rows -/
+
+/-- the table facts `retrieve` relies on, re-proved from the generated tables: every `tmap[kind]`
+    consists of canonical `(file, family, type)` entries, without repetition, and contains the entry
+    of a class exactly when the documented kind asks for that class; every kind is accepted by the
+    front end -/
+theorem cfg_tmap_good : cfg.TmapGood := by
+  constructor <;> decide
+
+theorem cfgLE_tmap_good (le : Bool) : (cfgLE le).TmapGood := cfg_tmap_good
+
+/-- **C11_rows_exact.** System-wide form. For EVERY well-formed world (any socket table: all
+    addresses, ports, states, UNIX names; any descriptor tables incl. unlistable processes, vanished
+    links, sockets shared by many processes, sockets held by nobody; IPv6 present or not), either
+    endianness and each of the 11 kinds, `psutil.net_connections(kind)` over the rendered procfs
+    returns rows that the specification accepts: every row is the promised tuple of a requested
+    socket with one of its visible holders (or `None, -1` when it has none); every requested socket
+    is there — once per holder for UNIX sockets, with one of its holders for TCP/UDP; no row twice,
+    and not more rows than sockets (× holders for UNIX). -/
+theorem C11_rows_exact (le : Bool) (w : World) (hw : w.WF) (kind : String) (hk : kind ∈ kinds) :
+    ∃ rows, netConnections (cfgLE le) (renderWorld le w) kind none = .ok rows
+      ∧ Accepts (expects w ⟨kind, none⟩) rows :=
+  netConnections_system (cfgLE le) (cfgLE_good le) (cfgLE_tmap_good le) w hw kind hk
+
+/-- **C11_rows_exact_process.** Per-process form `Process(pid).net_connections(kind)` for a listed
+    process (PIDs are listed once) whose descriptors can be listed. -/
+theorem C11_rows_exact_process (le : Bool) (w : World) (hw : w.WF) (hn : (w.procs.map (·.1)).Nodup)
+    (kind : String) (hk : kind ∈ kinds) (p : Nat) (fds : List (Nat × Target))
+    (hl : w.procs.lookup (p + 1) = some (some fds)) :
+    ∃ rows, netConnections (cfgLE le) (renderWorld le w) kind (some (p + 1)) = .ok rows
+      ∧ Accepts (expects w ⟨kind, some (p + 1)⟩) rows :=
+  netConnections_process (cfgLE le) (cfgLE_good le) (cfgLE_tmap_good le) w hw hn kind hk p fds hl
+
+/-- **C11_per_process_only_own.** Every row of the per-process form is a socket of the requested
+    kind that this very process holds, under the descriptor number the row carries. -/
+theorem C11_per_process_only_own (le : Bool) (w : World) (hw : w.WF) (hn : (w.procs.map (·.1)).Nodup)
+    (kind : String) (hk : kind ∈ kinds) (p : Nat) (fds : List (Nat × Target))
+    (hl : w.procs.lookup (p + 1) = some (some fds)) :
+    ∃ rows, netConnections (cfgLE le) (renderWorld le w) kind (some (p + 1)) = .ok rows ∧
+      ∀ r ∈ rows, ∃ s ∈ w.socks, kindSelects kind s.fam s.typ = true ∧
+        ∃ fd : Nat, (p + 1, fd) ∈ holders w s.inode ∧ r = rowOf s (none, (fd : Int)) := by
+  obtain ⟨rows, h1, h2⟩ := C11_rows_exact_process le w hw hn kind hk p fds hl
+  refine ⟨rows, h1, fun r hr => ?_⟩
+  obtain ⟨e, he, o, ho, rfl⟩ := h2.justified r hr
+  obtain ⟨s, hs, hsel, hes⟩ := (mem_expects w _ e).mp he
+  rw [expectOf_eq] at hes
+  by_cases h0 : owners w ⟨kind, some (p + 1)⟩ s.inode = []
+  · simp [h0] at hes
+  · simp only [h0, if_false, Option.some.injEq] at hes
+    subst hes
+    simp only [owners, List.mem_map, List.mem_filter] at ho
+    obtain ⟨h, ⟨hh, hp⟩, rfl⟩ := ho
+    have hp' : h.1 = p + 1 := by simpa using hp
+    exact ⟨s, hs, hsel, h.2, by rw [← hp']; exact hh, rfl⟩
+
+/-- **C11_unix_row_per_holder.** System-wide: a requested UNIX socket yields one row for EACH of its
+    visible holders `(pid, fd)` — however many processes share it. -/
+theorem C11_unix_row_per_holder (le : Bool) (w : World) (hw : w.WF) (kind : String) (hk : kind ∈ kinds)
+    (s : Sock) (hs : s ∈ w.socks) (hu : s.fam = .unix) (hsel : kindSelects kind s.fam s.typ = true)
+    (pid fd : Nat) (hh : (pid, fd) ∈ holders w s.inode) :
+    ∃ rows, netConnections (cfgLE le) (renderWorld le w) kind none = .ok rows
+      ∧ rowOf s (some pid, (fd : Int)) ∈ rows := by
+  obtain ⟨rows, h1, h2⟩ := C11_rows_exact le w hw kind hk
+  refine ⟨rows, h1, ?_⟩
+  have hne : holders w s.inode ≠ [] := fun h => by rw [h] at hh; cases hh
+  have hO : owners w ⟨kind, none⟩ s.inode = (holders w s.inode).map fun h => (some h.1, (h.2 : Int)) := by
+    simp only [owners]
+    cases h : holders w s.inode with
+    | nil => exact absurd h hne
+    | cons a as => simp
+  have hne' : owners w ⟨kind, none⟩ s.inode ≠ [] := by
+    rw [hO]; intro h; exact hne (List.map_eq_nil_iff.mp h)
+  have he : (⟨baseRow s, owners w ⟨kind, none⟩ s.inode, s.fam == .unix⟩ : Expect) ∈ expects w ⟨kind, none⟩ := by
+    rw [mem_expects]; exact ⟨s, hs, hsel, by rw [expectOf_eq]; simp [hne']⟩
+  have := h2.covered _ he
+  have hb : (s.fam == Fam.unix) = true := by simpa using hu
+  simp only [hb, if_true] at this
+  exact this (some pid, (fd : Int)) (by rw [hO]; exact List.mem_map.mpr ⟨(pid, fd), hh, rfl⟩)
+
+/-- **C11_no_holder_none.** System-wide: a requested socket with no visible holder (its owner's
+    descriptors cannot be listed, or nobody holds it) is returned with `pid None, fd -1`. -/
+theorem C11_no_holder_none (le : Bool) (w : World) (hw : w.WF) (kind : String) (hk : kind ∈ kinds)
+    (s : Sock) (hs : s ∈ w.socks) (hsel : kindSelects kind s.fam s.typ = true)
+    (hh : holders w s.inode = []) :
+    ∃ rows, netConnections (cfgLE le) (renderWorld le w) kind none = .ok rows
+      ∧ rowOf s (none, -1) ∈ rows := by
+  obtain ⟨rows, h1, h2⟩ := C11_rows_exact le w hw kind hk
+  refine ⟨rows, h1, ?_⟩
+  have hO : owners w ⟨kind, none⟩ s.inode = [(none, -1)] := by simp [owners, hh]
+  have he : (⟨baseRow s, [(none, -1)], s.fam == .unix⟩ : Expect) ∈ expects w ⟨kind, none⟩ := by
+    rw [mem_expects]; exact ⟨s, hs, hsel, by rw [expectOf_eq, hO]; simp⟩
+  have := h2.covered _ he
+  by_cases hu : s.fam = .unix
+  · have hb : (s.fam == Fam.unix) = true := by simpa using hu
+    simp only [hb, if_true] at this
+    exact this (none, -1) (by simp)
+  · have hb : (s.fam == Fam.unix) = false := by simpa using hu
+    simp only [hb, Bool.false_eq_true, if_false] at this
+    obtain ⟨o, ho, hr⟩ := this
+    simp at ho; subst ho; exact hr
+
+/-! ## The hypotheses are satisfiable -/
+
+/-- a world with a listening TCP socket shared by two processes, a UNIX socket bound to a name
+    with a blank, an unlistable process and a vanished link -/
+def sampleWorld : World :=
+  { socks := [
+      { fam := .inet4, typ := 1, lip := [127, 0, 0, 1], lport := 631, rip := [0, 0, 0, 0], rport := 0,
+        state := 10, path := none, inode := 12345, txq := 0, rxq := 0, uid := 0, refcnt := 2, flags := 0 },
+      sockL11 ],
+    procs := [(10, some [(3, .sock 12345), (4, .sock 20001), (0, .other (lit "/dev/null"))]),
+              (20, some [(5, .sock 12345), (6, .gone)]), (30, none)],
+    v6 := true }
+
+example : sampleWorld.WF := by
+  refine ⟨?_, ?_, (by intro h; cases h)⟩
+  · intro s hs
+    simp only [sampleWorld, List.mem_cons, List.not_mem_nil, or_false] at hs
+    rcases hs with rfl | rfl
+    · simp [Sock.WF]
+    · simp only [Sock.WF, sockL11]
+      refine ⟨by decide, ?_⟩
+      intro p hp; cases hp; decide
+  · intro p hp fds hfd e he
+    simp only [sampleWorld, List.mem_cons, List.not_mem_nil, or_false] at hp
+    rcases hp with rfl | rfl | rfl
+    · simp at hfd; subst hfd
+      simp at he
+      rcases he with rfl | rfl | rfl
+      · trivial
+      · trivial
+      · simp only [Target.WF]; decide
+    · simp at hfd; subst hfd
+      simp at he
+      rcases he with rfl | rfl <;> trivial
+    · simp at hfd
+
+example : (sampleWorld.procs.map (·.1)).Nodup := by decide
+example : sampleWorld.procs.lookup (9 + 1) = some (some [(3, .sock 12345), (4, .sock 20001), (0, .other (lit "/dev/null"))]) := by
+  decide
+example : holders sampleWorld 12345 = [(10, 3), (20, 5)] := by decide
+example : "unix" ∈ kinds ∧ "bogus" ∉ kinds := by decide
 
 end Psutil.C11
